@@ -108,76 +108,82 @@ func errStr(err error) string {
 	return err.Error()
 }
 
-// callGetter runs the getter on m with an identically initialised destination.
-func callGetter(c c07Case, m *stun.Message) c07Outcome {
+// callGetter runs the getter on m with an identically initialised destination:
+// one that carries the remains of an earlier use, or (fresh) a zero value.
+func callGetter(c c07Case, m *stun.Message, fresh bool) c07Outcome {
 	prev := net.IP(unHex(c.PrevIP))
-	if len(prev) == 0 {
+	if len(prev) == 0 || fresh {
 		prev = nil
+	}
+	old, oldPort, oldCode := "old", 7, stun.ErrorCode(1)
+	oldUnknown := stun.UnknownAttributes{1, 2, 3}
+	if fresh {
+		old, oldPort, oldCode, oldUnknown = "", 0, 0, nil
 	}
 	t := stun.AttrType(c.Type)
 	switch c.Getter {
 	case "xor":
-		a := &stun.XORMappedAddress{IP: prev, Port: 7}
+		a := &stun.XORMappedAddress{IP: prev, Port: oldPort}
 		err := a.GetFrom(m)
 
 		return c07Outcome{errStr(err), fmt.Sprintf("%x|%d", []byte(a.IP), a.Port)}
 	case "xoras":
-		a := &stun.XORMappedAddress{IP: prev, Port: 7}
+		a := &stun.XORMappedAddress{IP: prev, Port: oldPort}
 		err := a.GetFromAs(m, t)
 
 		return c07Outcome{errStr(err), fmt.Sprintf("%x|%d", []byte(a.IP), a.Port)}
 	case "mapped":
-		a := &stun.MappedAddress{IP: prev, Port: 7}
+		a := &stun.MappedAddress{IP: prev, Port: oldPort}
 		err := a.GetFrom(m)
 
 		return c07Outcome{errStr(err), fmt.Sprintf("%x|%d", []byte(a.IP), a.Port)}
 	case "mappedas":
-		a := &stun.MappedAddress{IP: prev, Port: 7}
+		a := &stun.MappedAddress{IP: prev, Port: oldPort}
 		err := a.GetFromAs(m, t)
 
 		return c07Outcome{errStr(err), fmt.Sprintf("%x|%d", []byte(a.IP), a.Port)}
 	case "alt":
-		a := &stun.AlternateServer{IP: prev, Port: 7}
+		a := &stun.AlternateServer{IP: prev, Port: oldPort}
 		err := a.GetFrom(m)
 
 		return c07Outcome{errStr(err), fmt.Sprintf("%x|%d", []byte(a.IP), a.Port)}
 	case "origin":
-		a := &stun.ResponseOrigin{IP: prev, Port: 7}
+		a := &stun.ResponseOrigin{IP: prev, Port: oldPort}
 		err := a.GetFrom(m)
 
 		return c07Outcome{errStr(err), fmt.Sprintf("%x|%d", []byte(a.IP), a.Port)}
 	case "other":
-		a := &stun.OtherAddress{IP: prev, Port: 7}
+		a := &stun.OtherAddress{IP: prev, Port: oldPort}
 		err := a.GetFrom(m)
 
 		return c07Outcome{errStr(err), fmt.Sprintf("%x|%d", []byte(a.IP), a.Port)}
 	case "username":
-		a := stun.Username("old")
+		a := stun.Username(old)
 		err := a.GetFrom(m)
 
 		return c07Outcome{errStr(err), fmt.Sprintf("%x", []byte(a))}
 	case "realm":
-		a := stun.Realm("old")
+		a := stun.Realm(old)
 		err := a.GetFrom(m)
 
 		return c07Outcome{errStr(err), fmt.Sprintf("%x", []byte(a))}
 	case "nonce":
-		a := stun.Nonce("old")
+		a := stun.Nonce(old)
 		err := a.GetFrom(m)
 
 		return c07Outcome{errStr(err), fmt.Sprintf("%x", []byte(a))}
 	case "software":
-		a := stun.Software("old")
+		a := stun.Software(old)
 		err := a.GetFrom(m)
 
 		return c07Outcome{errStr(err), fmt.Sprintf("%x", []byte(a))}
 	case "errattr":
-		a := &stun.ErrorCodeAttribute{Code: 1, Reason: []byte("old")}
+		a := &stun.ErrorCodeAttribute{Code: oldCode, Reason: []byte(old)}
 		err := a.GetFrom(m)
 
 		return c07Outcome{errStr(err), fmt.Sprintf("%d|%x", a.Code, a.Reason)}
 	case "unknown":
-		a := stun.UnknownAttributes{1, 2, 3}
+		a := oldUnknown
 		err := a.GetFrom(m)
 
 		return c07Outcome{errStr(err), fmt.Sprintf("%v", []stun.AttrType(a))}
@@ -192,13 +198,13 @@ func callGetter(c c07Case, m *stun.Message) c07Outcome {
 	case "parse":
 		// batches: Parse stops at the first failing getter; Check likewise
 		x := &stun.XORMappedAddress{IP: prev}
-		u := stun.Username("old")
+		u := stun.Username(old)
 		e := &stun.ErrorCodeAttribute{}
 		err := m.Parse(x, &u, e)
 		cerr := m.Check(stun.Fingerprint, stun.MessageIntegrity(unHex(c.Key)))
 		// sequential reference for the batch semantics
 		x2 := &stun.XORMappedAddress{IP: append(net.IP(nil), prev...)}
-		u2 := stun.Username("old")
+		u2 := stun.Username(old)
 		e2 := &stun.ErrorCodeAttribute{}
 		var serr error
 		for _, g := range []stun.Getter{x2, &u2, e2} {
@@ -236,7 +242,13 @@ func runTwin(c c07Case, l c07Layout, which string) (c07Outcome, error) {
 	before := snapMsg(m)
 	var out c07Outcome
 	var perr error
-	guarded("C07", "twin", c, func() { perr = pbt.Safely(func() { out = callGetter(c, m) }) })
+	var outFresh c07Outcome
+	guarded("C07", "twin", c, func() {
+		perr = pbt.Safely(func() {
+			out = callGetter(c, m, false)
+			outFresh = callGetter(c, m, true)
+		})
+	})
 	if perr != nil {
 		return out, fmt.Errorf("twin %s (value %d bytes, extra capacity %d): %w", which, len(c.Val)/2, l.ExtraCap, perr)
 	}
@@ -245,6 +257,11 @@ func runTwin(c c07Case, l c07Layout, which string) (c07Outcome, error) {
 	}
 	if derr := before.diff(m); derr != nil {
 		return out, fmt.Errorf("twin %s: %s (outcome %s) modified the message: %w", which, c.Getter, out.err, derr)
+	}
+	// the outcome is a function of the attribute value: what the destination held before must not show
+	if out.err != outFresh.err || (out.err == "<nil>" && out.value != outFresh.value) {
+		return out, fmt.Errorf("twin %s: %s on the %d-byte value %s depends on what the destination held before: previously used destination -> (%s, %s), zero-value destination -> (%s, %s)",
+			which, c.Getter, len(c.Val)/2, c.Val, out.err, out.value, outFresh.err, outFresh.value)
 	}
 
 	return out, nil
